@@ -84,6 +84,9 @@ def timed_go(eng_path, fen, go, overhead):
         if t is None or len(l.split()) < 2 or l.split()[1] in ("0000", "(none)"):
             raise Unusable(fen)
         lat = t - t0
+        # the timed search starts on cold tables (the probe above must not make it cheaper)
+        e.send("ucinewgame")
+        e.send("position fen " + fen)
         e.send("isready")
         e.wait("readyok", 20)
         t0 = time.monotonic()
